@@ -101,7 +101,7 @@ func runC10(c *Ctx) {
 		depth = 4
 	}
 	c.Exhaustive = true
-	c.Rule = fmt.Sprintf("all management-call histories of depth <= %d over a 22-call alphabet (p and g; single, batch, Ex, update, batch update, filtered removal, UpdateFilteredPolicies) plus SavePolicy/LoadPolicy, with the recording set-semantics adapter implementing every optional interface, under both auto-save settings; after every call the adapter contents and call log are compared with the Lean model and, after every successful call with auto-save on, a second real enforcer freshly loaded from the adapter must make the same decisions over the 16-request universe (checked on the implementation); the file/string adapter save/load round trip over loadable fields; non-trivial = a history with a call that changed the policy and one that was refused; distinct = whole history", depth)
+	c.Rule = fmt.Sprintf("all management-call histories of depth <= %d over a 22-call alphabet (p and g; single, batch, Ex, update, batch update, filtered removal, UpdateFilteredPolicies) plus SavePolicy/LoadPolicy, with the recording set-semantics adapter implementing every optional interface, under both auto-save settings, and over an 11-call alphabet on a subject-priority model whose store is loaded out of hierarchy order (implementation only: live vs freshly loaded, rule list vs index); after every call the adapter contents and call log are compared with the Lean model and, after every successful call with auto-save on, a second real enforcer freshly loaded from the adapter must make the same decisions over the 16-request universe (checked on the implementation); the file/string adapter save/load round trip over loadable fields; non-trivial = a history with a call that changed the policy and one that was refused; distinct = whole history", depth)
 	for _, autosave := range []bool{true, false} {
 		autosave := autosave
 		alpha := append(mgmtAlphabet(), EOp{Kind: "save"}, EOp{Kind: "load"})
@@ -197,6 +197,72 @@ func runC10(c *Ctx) {
 			c.Count("fresh_enforcer_comparisons", 1)
 		}
 		enumerate(c, cfg)
+	}
+	// subject priority: the store holds the rules in an order the load-time sort changes (the most specific
+	// subject last); every later call by rule value must still hit that rule in memory and in the adapter
+	{
+		msS := NewMSpec().AddR("r", "sub", "obj", "act").AddP("p", "sub", "obj", "act", "eft").AddG("g", 2).
+			AddE("e", "subjectPriority(p_eft) || deny").AddM("m", "r", "p", And(G2("g", RTok(0), PTok(0)), Eq(RTok(1), PTok(1)), Eq(RTok(2), PTok(2))))
+		PS := [][]string{{"root", "data1", "read", "deny"}, {"admin", "data1", "read", "deny"}, {"alice", "data1", "read", "allow"}, {"admin", "data2", "write", "allow"}}
+		stored := []memLineT{{PType: "p", Rule: PS[0]}, {PType: "p", Rule: PS[1]}, {PType: "p", Rule: PS[2]}, {PType: "p", Rule: PS[3]},
+			{PType: "g", Rule: []string{"admin", "root"}}, {PType: "g", Rule: []string{"alice", "admin"}}}
+		alphaS := []EOp{
+			{Kind: "rm", Sec: "p", PType: "p", Rule: PS[0]}, {Kind: "rm", Sec: "p", PType: "p", Rule: PS[1]}, {Kind: "rm", Sec: "p", PType: "p", Rule: PS[2]},
+			{Kind: "upd", Sec: "p", PType: "p", Rule: PS[0], New: []string{"root", "data1", "read", "allow"}},
+			{Kind: "upd", Sec: "p", PType: "p", Rule: PS[2], New: []string{"alice", "data1", "read", "deny"}},
+			{Kind: "rms", Sec: "p", PType: "p", Rules: [][]string{PS[1], PS[3]}},
+			{Kind: "upds", Sec: "p", PType: "p", Rules: [][]string{PS[1]}, News: [][]string{{"admin", "data1", "read", "allow"}}},
+			{Kind: "add", Sec: "p", PType: "p", Rule: []string{"root", "data2", "write", "deny"}},
+			{Kind: "rmf", Sec: "p", PType: "p", FI: 0, Vals: []string{"admin"}},
+			{Kind: "load"}, {Kind: "save"},
+		}
+		cfgS := &HistCfg{Name: "subject-priority-loaded", Quiet: true, MS: msS, Opts: CaseOpts{Adapter: true, ALines: stored}, Depth: 3, Alphabet: alphaS,
+			Probes: []EOp{{Kind: "obs", Args: []string{"adapter"}}, {Kind: "obs", Args: []string{"pol", "p", "p"}},
+				{Kind: "enf", Req: []V{VS("alice"), VS("data1"), VS("read")}}, {Kind: "enf", Req: []V{VS("admin"), VS("data1"), VS("read")}}, {Kind: "enf", Req: []V{VS("alice"), VS("data2"), VS("write")}}}}
+		if !c.Thorough() {
+			cfgS.Depth = 2
+		}
+		cfgS.AfterStep = func(c *Ctx, s *Sess, hist []EOp, obs string) {
+			if obs != "true" && obs != "ok" {
+				return
+			}
+			e2, err := casbin.NewEnforcer(msS.Build(), s.A)
+			s.A.Log = s.A.Log[:len(s.A.Log)-1]
+			s.A.Calls--
+			if err != nil {
+				c.Direct("an enforcer freshly loaded from the adapter fails to load", histText(hist))
+				return
+			}
+			dec := func(e *casbin.Enforcer) string {
+				var sb strings.Builder
+				for _, sub := range []string{"root", "admin", "alice"} {
+					for _, oa := range [][2]string{{"data1", "read"}, {"data2", "write"}} {
+						ok, err := e.Enforce(sub, oa[0], oa[1])
+						switch {
+						case err != nil:
+							sb.WriteByte('E')
+						case ok:
+							sb.WriteByte('1')
+						default:
+							sb.WriteByte('0')
+						}
+					}
+				}
+				return sb.String()
+			}
+			ast := s.E.GetModel()["p"]["p"]
+			for idx, r := range ast.Policy {
+				if j, ok := ast.PolicyMap[strings.Join(r, ",")]; !ok || j != idx {
+					c.Direct("after a load that re-ordered the rules the index map and the rule list disagree", fmt.Sprintf("%s\npolicy=%v index=%v", histText(hist), ast.Policy, ast.PolicyMap))
+					break
+				}
+			}
+			if a, b := dec(s.E), dec(e2); a != b {
+				c.Direct("a freshly loaded enforcer decides differently from the live one", fmt.Sprintf("subject priority, store loaded out of hierarchy order: %s\nlive=%s fresh=%s adapter=%v", histText(hist), a, b, s.A.Lines))
+			}
+			c.Count("fresh_enforcer_comparisons_subject_priority", 1)
+		}
+		enumerate(c, cfgS)
 	}
 	c10RoundTrip(c)
 }
